@@ -82,6 +82,15 @@ func runCaseLocal(c corr.Case, emit func(i int, out string)) (res corr.Result) {
 					return "bad-op"
 				}
 				r = w.connect()
+			} else if f[0] == "burst" {
+				if len(f) != 2 {
+					return "bad-op"
+				}
+				n, err := strconv.Atoi(f[1])
+				if err != nil || strconv.Itoa(n) != f[1] || n < 1 || n > 8 {
+					return "bad-op"
+				}
+				r = w.burst(n)
 			} else {
 				r = w.op(f)
 				if r == "bad-op" {
@@ -314,6 +323,18 @@ func fixedCases() []corr.Case {
 			out = append(out, mk("accept", ls...))
 		}
 	}
+	// bursts of connection attempts (no observation in between) against maxConn 0..3, with a slot freed in between
+	for max := 0; max <= 3; max++ {
+		for _, n := range []int{2, 4, 8} {
+			m := strconv.Itoa(max)
+			out = append(out, mk("burst", "init "+m+" pipe", "burst "+strconv.Itoa(n), "pclose 0", "burst 3", "conn"))
+			out = append(out, mk("burst", "init "+m+" tcp", "burst "+strconv.Itoa(n), "conn"))
+		}
+	}
+	// a connection whose Close reports an error, ended by each terminating event
+	for _, a := range killers {
+		out = append(out, mk("close-error", "init 1 pipe", "conn", "cerr 0", "send 0 aa", a+" 0", "send 0 bb", "drain 0", "conn"))
+	}
 	// real timeouts (read 60 ms, write 250 ms) and loopback TCP
 	out = append(out,
 		mk("real-timeout", "init 2 rt", "conn", "conn", "send 0 aa", "conn"),
@@ -361,11 +382,27 @@ func genCase(r *rng.R, tier string, i int) corr.Case {
 	conn()
 	for j := 0; j < nops; j++ {
 		if nsess == 0 || r.Chance(1, 5) {
+			if r.Chance(1, 4) {
+				nb := r.Range(2, 5)
+				lines = append(lines, "burst "+strconv.Itoa(nb))
+				for b := 0; b < nb; b++ {
+					if count < max {
+						alive[nsess] = true
+						nsess++
+						count++
+					}
+				}
+				continue
+			}
 			conn()
 			continue
 		}
 		k := r.Intn(nsess)
 		ks := strconv.Itoa(k)
+		if r.Chance(1, 30) {
+			lines = append(lines, "cerr "+ks)
+			continue
+		}
 		switch x := r.Intn(20); {
 		case x < 6:
 			if r.Chance(1, 12) {
@@ -423,6 +460,18 @@ func genTCP(r *rng.R) corr.Case {
 	alive := map[int]bool{0: true}
 	for j := r.Range(3, 8); j > 0; j-- {
 		if nsess == 0 || r.Chance(1, 4) {
+			if r.Chance(1, 3) {
+				nb := r.Range(2, 4)
+				ls = append(ls, "burst "+strconv.Itoa(nb))
+				for b := 0; b < nb; b++ {
+					if count < max {
+						alive[nsess] = true
+						nsess++
+						count++
+					}
+				}
+				continue
+			}
 			ls = append(ls, "conn")
 			if count < max {
 				alive[nsess] = true
@@ -452,7 +501,7 @@ func genTCP(r *rng.R) corr.Case {
 
 func genMalformed(r *rng.R) corr.Case {
 	ls := []string{"init 1 pipe", "conn"}
-	bad := []string{"send 0", "send 0 0", "send 0 0g", "send 0 AA", "close 1", "close", "pclose x", "conn 1", "frob 0", "init", "init 1", "init 1 foo", "hold", "send 5 aa", "rerr -1", "wto 0 0"}
+	bad := []string{"burst 0", "burst 9", "burst", "burst x", "cerr", "send 0", "send 0 0", "send 0 0g", "send 0 AA", "close 1", "close", "pclose x", "conn 1", "frob 0", "init", "init 1", "init 1 foo", "hold", "send 5 aa", "rerr -1", "wto 0 0"}
 	for j := r.Range(2, 6); j > 0; j-- {
 		if r.Chance(1, 3) {
 			ls = append(ls, r.Pick("send 0 aa", "pdata 0", "conn"))
@@ -470,7 +519,7 @@ func spec() corr.Spec {
 		Count: func(tier string) int {
 			switch tier {
 			case "quick":
-				return 6000
+				return 5000
 			case "thorough":
 				return 150000
 			}
@@ -488,17 +537,17 @@ func spec() corr.Spec {
 			// at least one session was started and something happened to it
 			acc, act := false, false
 			for i, o := range r.Outs {
-				if strings.HasPrefix(o, "r=acc") {
+				if strings.HasPrefix(o, "r=acc") && !strings.HasPrefix(o, "r=acc0,") {
 					acc = true
 				}
 				f := strings.Fields(c.Lines[i])
-				if len(f) > 0 && f[0] != "init" && f[0] != "conn" && o != "bad-op" {
+				if len(f) > 0 && f[0] != "init" && f[0] != "conn" && f[0] != "burst" && o != "bad-op" {
 					act = true
 				}
 			}
 			return acc && act
 		},
-		Rule: "scripts of connection attempts against maxConn -1..3 and, per session, Send (incl. zero-length), local Close, peer close, peer reading/not reading, handler data/error/panic/panic(nil), injected read/write errors, forced and real (60 ms read / 250 ms write) timeouts, failing Set*Deadline, repeated Start; every terminating event alone and in every ordered pair, with and without a blocked write and queued items; 0..5 queued sends before a local Close; sessions over net.Pipe through the real accept loop and over loopback TCP; a case is non-trivial when a session was started and at least one operation was applied to it; distinct = distinct script text",
+		Rule: "scripts of connection attempts (single and in bursts of 2..8 without observation in between) against maxConn -1..3 and, per session, Send (incl. zero-length), local Close, peer close, peer reading/not reading, handler data/error/panic/panic(nil), injected read/write errors, forced and real (60 ms read / 250 ms write) timeouts, failing Set*Deadline, a failing conn.Close, repeated Start; every terminating event alone and in every ordered pair, with and without a blocked write and queued items; 0..5 queued sends before a local Close; sessions over net.Pipe through the real accept loop and over loopback TCP; a case is non-trivial when a session was started and at least one operation was applied to it; distinct = distinct script text",
 		Assumptions: []string{
 			"net.Conn behaviour is assumed at the transition level: closing a connection (or the peer closing) makes the blocked Read/Write of the other loop return an error; a Write to a peer that does not read blocks; deadlines fire (checked on net.Pipe and loopback TCP by the correspondence, not proved)",
 			"sync.Once, sync.Cond, atomic.Int32 behave as documented; the Go scheduler eventually runs a runnable goroutine",
